@@ -1,6 +1,7 @@
 package main
 
 import (
+	"go.uber.org/zap/zaptest"
 	"bytes"
 	"encoding/json"
 	"fmt"
@@ -198,11 +199,37 @@ func checkC16(c *Ctx) {
 	c.Set("overlap_schedules", int64(nov))
 	c.Set("exhaustive", true)
 	c.Set("rule", "every configuration of the listed Console.tla families (thorough: the full 2M product) x 3 seeded concretisations; every JsonEnc.tla program (Spaced) up to the bound as console context x 2 concretisations")
+	for _, f := range replayConsoleZaptest(c.Seed) {
+		c.Violation(f.Key, f.What, map[string]interface{}{"mode": "zaptest-front-end"})
+	}
+	c.Add("traces_validated_against_impl", 1)
+
 }
 
 var conSeps = []string{"", "\t", " | ", "»«", " ", "::", "│", "·"}
 
+// c16Poison: an application-supplied column encoder panics half way through the columns of an entry and the
+// application recovers (as an HTTP middleware would). Entries encoded afterwards must look as always.
+func c16Poison(which int) {
+	defer func() { recover() }()
+	cfg := zapcore.EncoderConfig{TimeKey: "t", LevelKey: "l", NameKey: "n", CallerKey: "c", MessageKey: "m",
+		EncodeTime: zapcore.EpochTimeEncoder, EncodeLevel: zapcore.CapitalLevelEncoder, EncodeCaller: zapcore.ShortCallerEncoder}
+	switch which % 3 {
+	case 0:
+		cfg.EncodeName = func(string, zapcore.PrimitiveArrayEncoder) { panic("user name encoder failed") }
+	case 1:
+		cfg.EncodeCaller = func(zapcore.EntryCaller, zapcore.PrimitiveArrayEncoder) { panic("user caller encoder failed") }
+	default:
+		cfg.EncodeLevel = func(l zapcore.Level, e zapcore.PrimitiveArrayEncoder) { e.AppendString("STALE-LEVEL"); panic("user level encoder failed") }
+	}
+	enc := zapcore.NewConsoleEncoder(cfg)
+	enc.EncodeEntry(zapcore.Entry{LoggerName: "STALE-NAME", Message: "poison", Time: time.Unix(1, 0), Caller: zapcore.EntryCaller{Defined: true, File: "stale.go", Line: 1}}, nil)
+}
+
 func replayConsole(b conBeh, seed int64) (finds []Finding) {
+	if seed%4 == 0 {
+		c16Poison(int(seed / 4))
+	}
 	rng := rand.New(rand.NewSource(seed))
 	cf := b.cfg()
 	add := func(key, f string, a ...interface{}) {
@@ -516,4 +543,51 @@ func replayConsoleOverlap(sched [][2]interface{}) (key, what, inconclusive strin
 		}
 	}
 	return "", "", inconclusive
+}
+
+// replayConsoleZaptest: zaptest.NewLogger prints console-encoded entries through testing.TB. What the test log
+// shows must be the console line itself (minus its line ending), whatever bytes the entry contains.
+func replayConsoleZaptest(seed int64) (finds []Finding) {
+	add := func(key, f string, a ...interface{}) {
+		if len(finds) < 4 {
+			finds = append(finds, Finding{Key: key, What: fmt.Sprintf(f, a...)})
+		}
+	}
+	clk := smpClock{time.Unix(1700000000, 0)}
+	t := &stubT{}
+	lg := zaptest.NewLogger(t, zaptest.WrapOptions(zap.WithClock(clk)))
+	var buf bytes.Buffer
+	ref := zap.New(zapcore.NewCore(zapcore.NewConsoleEncoder(zap.NewDevelopmentEncoderConfig()), zapcore.AddSync(&buf), zapcore.DebugLevel), zap.WithClock(clk))
+	texts := append([]string{"100% done", "%d items", "%!s(MISSING)", "50%% off %s %v %[1]d %", "%"}, jeStrPool...)
+	rng := rand.New(rand.NewSource(seed))
+	for i, m := range texts {
+		if len(m) > 2000 {
+			continue
+		}
+		k, v, name := texts[rng.Intn(len(texts))], texts[rng.Intn(len(texts))], []string{"", "svc", "a%sb"}[i%3]
+		if len(k) > 2000 || len(v) > 2000 {
+			k, v = "k%d", "v%v"
+		}
+		for _, l := range []*zap.Logger{lg, ref} {
+			l.Named(name).With(zap.String(k, v)).Info(m, zap.String("%s", "%d"), zap.Int("n", i))
+		}
+		want := strings.TrimRight(buf.String(), "\n")
+		buf.Reset()
+		t.mu.Lock()
+		got := ""
+		if len(t.logs) > 0 {
+			got = t.logs[len(t.logs)-1]
+		}
+		n := len(t.logs)
+		t.logs = nil
+		t.mu.Unlock()
+		if n != 1 {
+			add("C16/zaptest:entry-count", "message %q through zaptest.NewLogger: %d test-log lines", m, n)
+			continue
+		}
+		if got != want {
+			add("C16/zaptest:line-differs", "through zaptest.NewLogger the test log shows %q, the console line is %q", trunc(got), trunc(want))
+		}
+	}
+	return finds
 }
